@@ -995,6 +995,12 @@ buildCommand(BuildContext& context, ninja::Command* command) {
       // shouldn't run this command.
       if (!value.isExistingInput() && !value.isSuccessfulCommand()) {
         shouldSkip = true;
+
+        // A command with a missing, failed or skipped input can never be
+        // brought up-to-date by the update-if-newer check (which only looks at
+        // the inputs that do exist): it has to be reported as skipped, so that
+        // its dependents do not run and it is reconsidered by the next build.
+        canUpdateIfNewer = false;
         if (value.isMissingInput()) {
           hasMissingInput = true;
 
